@@ -511,6 +511,20 @@ class HashRule(ABC):
     def clone(self) -> "HashRule":
         pass
 
+    def _watch_also_from(self, result: Set["HashRule"]):
+        """
+        This rule has the same key as a rule that is already in `result`: the same object was
+        reached through another symbol of the same parent. Only one rule per key is kept, so
+        make the rule that was kept watch this symbol as well, otherwise re-binding this symbol
+        would go unnoticed by `did_change`.
+
+        """
+        for rule in result:
+            if rule == self:
+                if rule is not self and hasattr(rule, "other_resolvers"):
+                    rule.other_resolvers.append(self.resolver)
+                return
+
     def __lt__(self, other):
         return self.key < other.key
 
@@ -643,15 +657,18 @@ class MementoFunctionHashRule(HashRule):
         )
         self.memento_fn = obj
         self.resolver = resolver
+        self.other_resolvers = []  # type: List[Callable]
 
     def clone(self) -> "HashRule":
-        return MementoFunctionHashRule(
+        rule = MementoFunctionHashRule(
             self.parent_symbol,
             self.symbol,
             self.resolver,
             self.memento_fn,
             self.first_level,
         )
+        rule.other_resolvers = list(self.other_resolvers)
+        return rule
 
     def collect_transitive_dependencies(
         self,
@@ -662,6 +679,7 @@ class MementoFunctionHashRule(HashRule):
     ):
         # Make sure self is not already accounted for:
         if self in result:
+            self._watch_also_from(result)
             return
 
         # Always add self, even if this function is not in package scope. Memento Functions
@@ -716,12 +734,15 @@ class MementoFunctionHashRule(HashRule):
         # The symbol may also point to a *different* memento function than the one this rule
         # was computed for: the name was re-bound, or the rule was collected while the function
         # was being redefined (the decorator runs before the name is bound to the new function).
-        new_fn = self.resolver()
-        while not isinstance(new_fn, MementoFunctionType) and hasattr(
-            new_fn, "__wrapped__"
-        ):
-            new_fn = new_fn.__wrapped__
-        return new_fn is not self.memento_fn
+        for resolver in [self.resolver] + self.other_resolvers:
+            new_fn = resolver()
+            while not isinstance(new_fn, MementoFunctionType) and hasattr(
+                new_fn, "__wrapped__"
+            ):
+                new_fn = new_fn.__wrapped__
+            if new_fn is not self.memento_fn:
+                return True
+        return False
 
     def __repr__(self):
         return f"MementoFunctionHashRule(key={repr(self.key)})"
@@ -867,6 +888,7 @@ class NonMementoFunctionHashRule(HashRule):
         )
         self.src_fn = obj
         self.resolver = resolver
+        self.other_resolvers = []  # type: List[Callable]
 
     @staticmethod
     def _function_name(obj: Callable, symbol: str) -> str:
@@ -882,13 +904,15 @@ class NonMementoFunctionHashRule(HashRule):
         return name
 
     def clone(self) -> HashRule:
-        return NonMementoFunctionHashRule(
+        rule = NonMementoFunctionHashRule(
             self.parent_symbol,
             self.symbol,
             self.resolver,
             self.src_fn,
             self.first_level,
         )
+        rule.other_resolvers = list(self.other_resolvers)
+        return rule
 
     def collect_transitive_dependencies(
         self,
@@ -899,6 +923,7 @@ class NonMementoFunctionHashRule(HashRule):
     ):
         # Make sure self is not already accounted for:
         if self in result:
+            self._watch_also_from(result)
             return
 
         # Only add this function and descend if it is within the package scope.
@@ -935,8 +960,10 @@ class NonMementoFunctionHashRule(HashRule):
         We use the function reference to detect changes.
 
         """
-        new_fn = self.resolver()
-        return self.src_fn != new_fn
+        return any(
+            self.src_fn != resolver()
+            for resolver in [self.resolver] + self.other_resolvers
+        )
 
     def __repr__(self):
         return f"NonMementoFunctionHashRule(key={self.key})"
